@@ -992,10 +992,14 @@ class NF:
                     r = self._run(m, list(rest), e2)
                     if r is None:
                         raise Opaque(f"{m.name}: a branch returns and the other falls off the end")
+                    if r == _RAISES:
+                        return r1
                     return self.mk_ite(c, r1, r)
                 r = self._run(m, list(rest), e1)
                 if r is None:
                     raise Opaque(f"{m.name}: a branch returns and the other falls off the end")
+                if r == _RAISES:
+                    return r2
                 return self.mk_ite(c, r, r2)
             if isinstance(s, ast.Raise):
                 return _RAISES
@@ -1229,6 +1233,57 @@ class NF:
 
 
 _RAISES = ("raises",)
+
+
+def _first_cond(t):
+    if not isinstance(t, tuple) or not t:
+        return None
+    if t[0] == "ite":
+        inner = _first_cond(t[1])
+        return inner if inner is not None else t[1]
+    for x in t[1:]:
+        if isinstance(x, tuple):
+            r = _first_cond(x)
+            if r is not None:
+                return r
+    return None
+
+
+def _assume(t, c, val: bool):
+    if not isinstance(t, tuple) or not t:
+        return t
+    if t == c:
+        return const(val) if False else t
+    if t[0] == "ite":
+        cond = _assume(t[1], c, val)
+        if t[1] == c:
+            return _assume(t[2] if val else t[3], c, val)
+        a, b = _assume(t[2], c, val), _assume(t[3], c, val)
+        if cond[0] == "const":
+            return a if cond[1] else b
+        return a if a == b else ("ite", cond, a, b)
+    return tuple(_assume(x, c, val) if isinstance(x, tuple) else x for x in t)
+
+
+def ite_normal(t, depth: int = 0):
+    """decision-tree normal form: conditional terms are split on their atomic conditions in order of first occurrence, so
+    `f(x if c else y)`, `f(x) if c else f(y)` and the guard-clause spelling of either coincide"""
+    c = _first_cond(t)
+    if c is None or depth > 10:
+        return t
+    if c[0] == "const":
+        return ite_normal(_assume_const(t, c), depth + 1)
+    a = ite_normal(_assume(t, c, True), depth + 1)
+    b = ite_normal(_assume(t, c, False), depth + 1)
+    return a if a == b else ("ite", c, a, b)
+
+
+def _assume_const(t, c):
+    if not isinstance(t, tuple) or not t:
+        return t
+    if t[0] == "ite" and t[1] == c:
+        return _assume_const(t[2] if c[1] else t[3], c)
+    return tuple(_assume_const(x, c) if isinstance(x, tuple) else x for x in t)
 
 
 def _generator_to_genexp(stmts):
